@@ -29,7 +29,7 @@ CORR = ["Corr/FsCorr.v"]
 
 # ------------------------------------------------------------------ building
 def build_case(run, shoot, mod, idx, rng, cmd=None, force_mode=None, force_invoke=None, expect_fail=None,
-               traced=True, fixed=False, force_kinds=()):
+               traced=True, fixed=False, force_kinds=(), supfix=False):
     """create the directory state of one case and run shoot on it under strace.
     returns the case dict (JSON-able except for bytes, which are latin-1 strings)"""
     cmd = cmd or fsgen.CMDS[idx % 4]
@@ -99,7 +99,7 @@ def build_case(run, shoot, mod, idx, rng, cmd=None, force_mode=None, force_invok
     case = {
         "idx": idx, "cmd": cmd, "mode": final.mode, "invoke": final.invoke, "args": args,
         "cwd": str(final.cwd(root).relative_to(root)) or ".", "root_hint": str(root),
-        "clean": final.clean_active() and not fail, "dirdot": final.dirdot(), "fixed": fixed,
+        "clean": final.clean_active() and not fail, "dirdot": final.dirdot(), "fixed": fixed, "supfix": supfix,
         "sel": [] if fail else final.selection(), "expect_ok": not fail, "fail": fail,
         "sources": files, "history": hist_log, "planted": planted, "links": links,
         "before": before, "after": after, "kept": kept, "ops": ops, "outside_trace": outside,
@@ -107,6 +107,93 @@ def build_case(run, shoot, mod, idx, rng, cmd=None, force_mode=None, force_invok
     }
     shutil.rmtree(root, ignore_errors=True)
     return case
+
+
+def fault_case(run, shoot, mod, idx, rng, kind, cmd, fixed=False, supfix=False):
+    """one run in which a system call of the write protocol is made to fail:
+    kind 1: the package directory is a tmpfs without room for the output (write fails with ENOSPC, possibly
+            after a partial write) -> main.go closes and removes the temporary, exit 1;
+    kind 2: the output name is occupied by a directory (rename fails) -> exit 1, the temporary stays.
+    Single output, invoked from the package directory."""
+    root = mod / ("fault_%d" % idx)
+    shutil.rmtree(root, ignore_errors=True)
+    (root / "p").mkdir(parents=True)
+    mounted = False
+    try:
+        if kind == 1:
+            rc, _, err = lib.sh(["mount", "-t", "tmpfs", "-o", "size=256k,mode=0755", "tmpfs", str(root / "p")], timeout=30)
+            if rc != 0:
+                return {"skipped": "mount -t tmpfs not permitted: " + err.strip()[:200]}
+            mounted = True
+        free_pages = rng.choice([0, 1, 1]) if kind == 1 else None
+        if free_pages == 1:
+            # one free page and an output of more than a page: the first write(2) is PARTIAL, the second fails
+            cmd = "enum"
+            p = fsgen.gen_pkg(rng, cmd)
+            while len(p.all_types()) < 3:
+                p = fsgen.gen_pkg(rng, cmd)
+            final = fsgen.gen_inv(rng, p, root, mode="star", invoke="pkg")
+        else:
+            p = fsgen.gen_pkg(rng, cmd)
+            final = fsgen.gen_inv(rng, p, root, mode=rng.choice(["star", "types"]), invoke="pkg")
+        if final.mode == "types":
+            final.types = final.types[:1]
+        fsgen.place_genline(rng, p, final, root)
+        files = fsgen.render_pkg(p)
+        l2.write_files(root, files)
+        planted = fsgen.plant(rng, root / "p", cmd, rng.randint(1, 3))
+        (g, ty), = final.selection()
+        outname = fsgen.out_name(cmd, g, ty)
+        if kind == 2:
+            (root / "p" / outname).mkdir()
+        else:
+            # fill the file system, then give back 0 or 1 page
+            fill = root / "p" / "_filler.txt"
+            n = 0
+            with open(fill, "wb", buffering=0) as f:
+                try:
+                    while n < 4096:
+                        f.write(b"filler\n" + b"x" * 4089)
+                        n += 1
+                except OSError:
+                    pass
+            size = os.path.getsize(fill) // 4096 * 4096
+            os.truncate(fill, max(0, size - 4096 * free_pages))
+        args = final.args(root)
+        before = fsgen.snapshot(root)
+        keep = {} if kind == 1 else fsgen.keep_links(root, mod / ("keepf_%d" % idx))
+        trace = run.scratch / ("ftrace_%d.txt" % idx)
+        res = fsgen.run_traced(shoot, final.cwd(root), args, trace)
+        text = trace.read_text(errors="replace") if trace.exists() else ""
+        ops, outside = fsgen.project(text, root, root / "p", final.cwd(root))
+        after = fsgen.snapshot(root)
+        if kind == 1:
+            kept = {ino: b for rel, ino, b in before + after if not rel.endswith("/")}
+        else:
+            kept = {ino: Path(k).read_bytes() for ino, k in keep.items()}
+        if trace.exists():
+            trace.unlink()
+        shutil.rmtree(mod / ("keepf_%d" % idx), ignore_errors=True)
+        failed = res["rc"] != 0
+        return {
+            "idx": 100000 + idx, "cmd": cmd, "mode": final.mode, "invoke": final.invoke, "args": args, "cwd": "p",
+            "root_hint": str(root), "clean": final.clean_active(), "dirdot": True, "fixed": fixed, "supfix": supfix,
+            "sel": final.selection(), "expect_ok": True, "fail": None,
+            "faultkind": (kind if (failed or kind == 2) else 0), "fault": {"kind": kind, "free_pages": free_pages},
+            "sources": files, "history": [], "planted": planted, "links": {},
+            "before": before, "after": after, "kept": kept, "ops": ops, "outside_trace": outside,
+            "rc": res["rc"], "stderr": res["err"][-1500:], "timed_out": res["timed_out"],
+        }
+    finally:
+        if mounted:
+            for _ in range(5):
+                rc, _, _ = lib.sh(["umount", str(root / "p")], timeout=30)
+                if rc == 0:
+                    break
+                time.sleep(0.2)
+            else:
+                lib.sh(["umount", "-l", str(root / "p")], timeout=30)
+        shutil.rmtree(root, ignore_errors=True)
 
 
 def pkg_files(snap):
@@ -138,7 +225,7 @@ def coq_case(case):
             nwrites.setdefault(o[2], 0)
         elif o[0] == "Write" and o[1] in cur:
             nwrites[cur[o[1]]] += 1
-    single = all(v == 1 for v in nwrites.values())
+    single = all(v <= 1 for v in nwrites.values())
     absf = fsgen.abstract if single else (lambda b: b)
     before = fsgen.coq_list("{| fi_name := %s; fi_ino := %d; fi_bytes := %s |}"
                             % (fsgen.coq_str(n), ids[ino], fsgen.coq_bytes(absf(b))) for n, ino, b in bf)
@@ -150,10 +237,19 @@ def coq_case(case):
     ops = fsgen.coq_list(fsgen.coq_op(o, absf) for o in case["ops"])
     sel = fsgen.coq_list("(%s, %s)" % (fsgen.coq_str(g), fsgen.coq_str(t)) for g, t in case["sel"])
     rc = case["rc"] if 0 <= case["rc"] < 256 else 255
-    return ("{| k_cmd := %s; k_clean := %s; k_dirdot := %s; k_fixed := %s; k_sel := %s; k_expect_ok := %s;\n   k_before := %s;\n"
+    tags = {}
+    for _, _, b in bf + af:
+        tg = fsgen.type_tags(b)
+        if tg:
+            tags[absf(b)] = tg
+    tagtbl = fsgen.coq_list("(%s, %s)" % (fsgen.coq_bytes(k), fsgen.coq_list(fsgen.coq_str(x) for x in v))
+                            for k, v in sorted(tags.items()))
+    return ("{| k_cmd := %s; k_clean := %s; k_dirdot := %s; k_fixed := %s; k_supfix := %s; k_tags := %s; k_faultkind := %d;\n"
+            "   k_sel := %s; k_expect_ok := %s;\n   k_before := %s;\n"
             "   k_ops := %s;\n   k_after := %s;\n   k_kept := %s; k_rc := %d; k_outside := %s |}"
             % (fsgen.coq_str(case["cmd"]), fsgen.coq_bool(case["clean"]), fsgen.coq_bool(case["dirdot"]),
-               fsgen.coq_bool(case.get("fixed", False)), sel,
+               fsgen.coq_bool(case.get("fixed", False)), fsgen.coq_bool(case.get("supfix", False)), tagtbl,
+               case.get("faultkind", 0), sel,
                fsgen.coq_bool(case["expect_ok"]), before, ops, after, kept, rc,
                fsgen.coq_bool(outside_changed(case))))
 
@@ -187,7 +283,8 @@ DIAG_NAMES = ["P_modelled (every traced operation is one of the model's and succ
               "P_kept (every pre-existing inode keeps its bytes)",
               "P_superseded (a file is gone only when every created/replaced name already shows its final content)",
               "nothing outside the package directory changed",
-              "model_agrees (plan = trace, final state = model's)"]
+              "model_agrees (plan = trace, final state = model's)",
+              "P_covered (every removed file is superseded: its types are provided by the created/replaced files)"]
 
 
 def coq_diag(run, tag, rendered_case, ctype="case"):
@@ -304,6 +401,30 @@ def h_clean_own_output(shoot, mod):
     return h
 
 
+def h_clean_not_superseded(shoot, mod):
+    def h(entry):
+        d = mod / "kf_notsup"
+        shutil.rmtree(d, ignore_errors=True)
+        for n, txt in entry["witness"]["files"].items():
+            (d / n).parent.mkdir(parents=True, exist_ok=True)
+            (d / n).write_text(txt)
+        r1 = l2.run_shoot(shoot, d / "q", ["map", "-path=../domain", "-type=OrderPO", "-to=Order"], timeout=60)
+        had = (d / "q" / "a.shootmap.orderpo.go").exists()
+        r2 = l2.run_shoot(shoot, d / "q", ["map", "-path=../domain", "-type=*"], timeout=60)
+        aio = d / "q" / "a.shootmap.go"
+        covered = fsgen.type_tags(aio.read_bytes()) if aio.exists() else []
+        still = (d / "q" / "a.shootmap.orderpo.go").exists()
+        shutil.rmtree(d, ignore_errors=True)
+        if not covered:
+            return "other: the -type=* run wrote no all-in-one file with marker methods"
+        if r1["rc"] != 0 or r2["rc"] != 0 or not had:
+            return "other: rc=%s/%s first output written=%s %s" % (r1["rc"], r2["rc"], had, (r1["err"] + r2["err"])[-300:])
+        if still or "OrderPO" in covered:
+            return "correct"
+        return "buggy"
+    return h
+
+
 # -------------------------------------------------------------------- thorough
 def clone_tree(src, dst):
     """copy a directory tree, reproducing its hard-link structure"""
@@ -320,7 +441,7 @@ def clone_tree(src, dst):
             first[ino] = rel
 
 
-def kill_case(run, shoot, mod, idx, rng, traced, fixed=False):
+def kill_case(run, shoot, mod, idx, rng, traced, fixed=False, supfix=False):
     """one reference run and one run killed with SIGKILL at a random instant on two
     copies of the same directory state"""
     cmd = fsgen.CMDS[idx % 4]
@@ -415,7 +536,7 @@ def kill_case(run, shoot, mod, idx, rng, traced, fixed=False):
         trace.unlink()
     kc = {"idx": idx, "cmd": cmd, "args": args, "mode": final.mode, "invoke": final.invoke,
           "cwd": str(final.cwd(root).relative_to(root)) or ".",
-          "clean": final.clean_active(), "dirdot": final.dirdot(), "fixed": fixed, "ref_rc": r0["rc"],
+          "clean": final.clean_active(), "dirdot": final.dirdot(), "fixed": fixed, "supfix": supfix, "ref_rc": r0["rc"],
           "before": before, "after": after, "kept": kept, "new": new, "removed": removed,
           "killed_at": killed_at, "how": how, "traced": traced, "planted": planted, "links": links,
           "ops_seen": len(ops), "sources": files}
@@ -435,10 +556,17 @@ def coq_kcase(kc):
         return [(rel, b) for rel, ino, b in snap
                 if not (rel.startswith("p/") and "/" not in rel[2:] and not rel.endswith("/"))]
     outside = rest(kc["before"]) != rest(kc["after"])
-    return ("{| q_cmd := %s; q_clean := %s; q_dirdot := %s; q_fixed := %s;\n   q_before := %s;\n   q_new := %s; q_ref_removed := %s;\n"
+    tags = {}
+    for b in [x[2] for x in bf] + [x[1] for x in kc["new"]]:
+        tg = fsgen.type_tags(b)
+        if tg:
+            tags[A(b)] = tg
+    tagtbl = fsgen.coq_list("(%s, %s)" % (fsgen.coq_bytes(k), fsgen.coq_list(fsgen.coq_str(x) for x in v))
+                            for k, v in sorted(tags.items()))
+    return ("{| q_cmd := %s; q_clean := %s; q_dirdot := %s; q_fixed := %s; q_supfix := %s; q_tags := %s;\n   q_before := %s;\n   q_new := %s; q_ref_removed := %s;\n"
             "   q_after := %s;\n   q_kept := %s; q_outside := %s |}"
             % (fsgen.coq_str(kc["cmd"]), fsgen.coq_bool(kc["clean"]), fsgen.coq_bool(kc["dirdot"]),
-               fsgen.coq_bool(kc.get("fixed", False)),
+               fsgen.coq_bool(kc.get("fixed", False)), fsgen.coq_bool(kc.get("supfix", False)), tagtbl,
                fsgen.coq_list("{| fi_name := %s; fi_ino := %d; fi_bytes := %s |}"
                               % (fsgen.coq_str(n), ids[ino], fsgen.coq_bytes(A(b))) for n, ino, b in bf),
                fsgen.coq_list("(%s, %s)" % (fsgen.coq_str(n), fsgen.coq_bytes(A(b))) for n, b in kc["new"]),
@@ -667,8 +795,10 @@ def main(run):
         "K_clean_lookalike": h_clean_lookalike(shoot, mod),
         "K_clean_error_after_write": h_clean_error_after_write(shoot, mod),
         "K_clean_own_output": h_clean_own_output(shoot, mod),
+        "K_clean_not_superseded": h_clean_not_superseded(shoot, mod),
     })
     fixed = outcome.get("K_clean_own_output") == "correct"
+    supfix = outcome.get("K_clean_not_superseded") == "correct"
     l1 = l1_checks(run)
     plan = case_plan(run, fixed)
     seeds = [run.rng.getrandbits(48) for _ in plan]
@@ -682,13 +812,13 @@ def main(run):
             # a case is a function of its seed: a traced run that does not finish in time (seen once in
             # ~1000 runs on a heavily loaded machine) is rebuilt from scratch and repeated
             c = build_case(run, shoot, mod, i, random.Random(seeds[i]), cmd=fsgen.CMDS[ci], force_mode=mode,
-                           force_invoke=invoke, expect_fail=fail, fixed=fixed, force_kinds=fkinds)
+                           force_invoke=invoke, expect_fail=fail, fixed=fixed, force_kinds=fkinds, supfix=supfix)
             if not c["timed_out"]:
                 return c
             retried.append(i)
         # three timeouts under strace: does shoot itself terminate on this input?
         c2 = build_case(run, shoot, mod, i, random.Random(seeds[i]), cmd=fsgen.CMDS[ci], force_mode=mode,
-                        force_invoke=invoke, expect_fail=fail, traced=False, fixed=fixed, force_kinds=fkinds)
+                        force_invoke=invoke, expect_fail=fail, traced=False, fixed=fixed, force_kinds=fkinds, supfix=supfix)
         if c2["timed_out"]:
             c2["nonterminating"] = True
             return c2
@@ -702,6 +832,23 @@ def main(run):
             run.violation({"kind": "property-fails-on-implementation", "what": "shoot does not terminate within 40 s",
                            "case": summary(c), "sources": c["sources"]})
     cases = [c for c in cases if not c.get("nonterminating")]
+    # runs with one failing system call (sequential: they mount a tmpfs)
+    nf = 8 if run.thorough() else 1
+    fskipped = None
+    fcases = []
+    off = run.rng.randrange(4)
+    for j in range(nf):
+        for kind in (1, 2):
+            # `rest` outputs exceed one page: a partial write precedes the failing one
+            fcmd = fsgen.CMDS[(off + j + kind) % 4]
+            fc = fault_case(run, shoot, mod, 2 * j + kind, random.Random(run.rng.getrandbits(48)), kind, fcmd,
+                            fixed=fixed, supfix=supfix)
+            if "skipped" in fc:
+                fskipped = fc["skipped"]
+            else:
+                fcases.append(fc)
+    run.log("runs with a failing system call: %d" % len(fcases))
+    cases += fcases
     rendered = [coq_case(c) for c in cases]
     mism = coq_verdicts(run, "c17cases", rendered)
     reported = 0
@@ -734,7 +881,7 @@ def main(run):
 
             def onek(j, base=kidx, kseeds=kseeds):
                 return kill_case(run, shoot, mod, base + j, random.Random(kseeds[j]), traced=((base + j) % 2 == 0),
-                                 fixed=fixed)
+                                 fixed=fixed, supfix=supfix)
             with cf.ThreadPoolExecutor(max_workers=4) as ex:
                 kcases += list(ex.map(onek, range(batch)))
             kidx += batch
@@ -772,6 +919,19 @@ def main(run):
     # coverage
     def count(f):
         return sum(1 for c in cases if f(c))
+
+    def not_superseded(c):
+        bf, af = pkg_files(c["before"]), pkg_files(c["after"])
+        an = {n: (i, b) for n, i, b in af}
+        bn = {n: (i, b) for n, i, b in bf}
+        covered = set()
+        for n, (i, b) in an.items():
+            if n not in bn or bn[n][0] != i:
+                covered |= set(fsgen.type_tags(b))
+        return any(n not in an and not set(fsgen.type_tags(b)) <= covered for n, (i, b) in bn.items())
+    not_superseded_hits = count(not_superseded)
+    if not_superseded_hits and not supfix:
+        run.log("cases in which a removed file was not superseded (known finding K_clean_not_superseded): %d" % not_superseded_hits)
     modes, invokes, kinds, opk = {}, {}, {}, {}
     for c in cases:
         modes[c["mode"]] = modes.get(c["mode"], 0) + 1
@@ -799,7 +959,7 @@ def main(run):
             st = "during_or_after_clean"
         crash_points[st] = crash_points.get(st, 0) + 1
     cov = {
-        "evaluations": len(cases) + len(kcases) + sum(r["reads"] for r in readers) + l1["header_cases"] + l1["glob_cases"],
+        "evaluations": len(cases) + len(kcases) + l1["header_cases"] + l1["glob_cases"],
         "distinct_nontrivial": len(keyset),
         "rule": ("each case = one strace'd run of the freshly built shoot on a generated package (1-3 source files, "
                  "1-2 eligible types each, one of the four subcommands) after a history of 0-3 earlier real runs in "
@@ -809,11 +969,22 @@ def main(run):
                  "under a matching and a non-matching name, and outside it); every subcommand x every mode "
                  "(-type=L, -file, -file -sep, -type=*, -type=* -sep, -type=* without generate line, -type *) x "
                  "invoked from the package directory and with [dir] (./p, p, absolute, .) occurs in every run, plus "
-                 "invocations that must be rejected before writing, plus random combinations.  non-trivial = distinct "
+                 "invocations that must be rejected before writing, plus random combinations; `map` packages also carry "
+                 "types that only an explicit `-type=S -to=D` run maps (no same-named destination type / unexported source "
+                 "type), used in histories and final runs, so that per-type outputs exist which a later -type=* run does "
+                 "not cover; plus runs with one provoked failing system call (ENOSPC on a full tmpfs, rename onto a "
+                 "directory).  non-trivial = distinct "
                  "(command line, directory listing) where the run replaced or removed a pre-existing file or ran next "
                  "to hard links" % len(fsgen.planted_menu(run.rng, "new"))),
         "exhaustive": False,
         "traces_validated_against_impl": len(cases),
+        "evaluations_note": "evaluations = traced runs (incl. runs with a provoked failing call) + SIGKILL attempts + L1 header and "
+                            "glob cases; the reads of the concurrent-reader runs are counted separately (concurrent_reads)",
+        "runs_with_a_failing_call": {"write_fails_ENOSPC": count(lambda c: c.get("faultkind") == 1),
+                                     "of_which_after_a_partial_write": count(lambda c: c.get("faultkind") == 1 and any(o[0] == "Write" for o in c["ops"])),
+                                     "rename_fails_output_is_a_directory": count(lambda c: c.get("faultkind") == 2),
+                                     "skipped": fskipped},
+        "removed_files_not_superseded_K_clean_not_superseded": not_superseded_hits,
         "programs": len(cases),
         "samples": [summary(cases[i]) for i in (0, len(cases) // 2, len(cases) - 1)],
         "modes": modes, "invocations": invokes, "planted_kinds": kinds, "traced_op_kinds": opk,
@@ -845,14 +1016,32 @@ def main(run):
             "outside the model and the stream)",
             "what shoot generates (names are taken from a Python mirror of fileName, contents from the trace) is the "
             "subject of C16/C01, not of this model",
-            "strace projection (harness/fsgen.py project): file contents are compared as first line + SHA-1 digest",
+            "strace projection (harness/fsgen.py project): file contents are compared as first line + SHA-1 digest; the "
+            "conjuncts of Pb about intermediate instants (P_atomic, P_stable, P_superseded) are evaluated on the model "
+            "states obtained by REPLAYING the projected trace, not on observed intermediate directory states: they are as "
+            "good as the traced syscall set (fsgen.STRACE_SET) is complete; what bounds an omission is the comparison of the "
+            "replayed final state with the real directory (names, inodes, contents) and of every pre-existing inode's bytes; "
+            "the SIGKILL runs are the only direct observation of intermediate states",
+            "which types a generated file provides (c_tags) is read off its marker methods (ShootNew/ShootEnum/ShootRest/"
+            "ShootMap receivers) by a regular expression in the harness; it is a parameter of the model",
         ],
     }
     return run.finish(cov, assumptions=[
         "a crash point is a prefix of the operation list; temporary files left behind by a killed run are allowed "
         "(the property speaks of normal termination)",
         "hand-written = the first line is not a `// Code generated by \"shoot <cmd> ...DO NOT EDIT.` header of the same "
-        "subcommand; a hand-written file that carries such a first line cannot be told from a generated one",
+        "subcommand; a hand-written file that carries such a first line cannot be told from a generated one "
+        "(C17_files_without_the_header_are_never_removed is about that criterion, which is the code's own)",
+        "all chunkings of a write are covered by the theorems only: every successful output was written by ONE write(2) "
+        "(multi_chunk_writes = 0); a partial write is observed only in the ENOSPC runs (one partial chunk, then the failing call)",
+        "failing system calls: C17_no_temp_left / C17_plan_never_fails speak of the run in which every call succeeds (exit 0); "
+        "C17_after_a_failing_call / C17_no_temp_left_unless_the_rename_failed cover ONE failing call (any position) and "
+        "main.go's recovery; of these only ENOSPC on write and rename onto a directory are exercised against the binary",
+        "K_clean_not_superseded (open): Clean removes same-subcommand per-type files whether or not the new all-in-one "
+        "file provides their types; `superseded` is stated declaratively (Model/Fs.v), proved for a repaired Clean "
+        "(c_supfix) and refuted for the current one; such cases ARE in the stream (map -to histories): the conjunct "
+        "P_covered fails on them and is accepted only while the finding reproduces and the run is otherwise exactly the "
+        "model's current-code prediction",
         "K_clean_own_output (fixed in /repo by 31cd4c3): the model keeps the defect branch (c_fixed = false) and "
         "C17_refuted_K_clean_own_output exhibits the witness; the witness is replayed on every run, the branch "
         "compared against is the one measured (current code: c_fixed = true, and -type '*' with a [dir] argument "
